@@ -72,17 +72,22 @@ StmtLines(f, split) ==
   IF split /\ f[3] # "" THEN <<"    " \o f[3], "      " \o f[4]>>
   ELSE <<"    " \o (IF f[3] = "" THEN f[4] ELSE f[3] \o " " \o f[4])>>
 
-Layout(lead, pre, fill, e, f, split) ==
-  LET head == Lead(lead) \o Pre(pre) \o <<"rule \"faulty\" \"d\"", "begin">> \o Filler(fill) \o Open(e)
+\* echo: the text of the faulty statement also occurs earlier in the same rule, in a branch that is never executed
+\* (the cited line is the line of the construct that FAILED, not of a construct that looks the same)
+Echo(on, txt) == IF on THEN <<"  if false {", "    " \o txt, "  }">> ELSE <<>>
+OneLine(f) == IF f[3] = "" THEN f[4] ELSE f[3] \o " " \o f[4]
+
+Layout(lead, pre, fill, e, f, split, echo) ==
+  LET head == Lead(lead) \o Pre(pre) \o <<"rule \"faulty\" \"d\"", "begin">> \o Filler(fill) \o Echo(echo, OneLine(f)) \o Open(e)
       st == StmtLines(f, split)
       stmtLine == Len(head) + 1
       faultLine == IF f[5] /\ Len(st) = 2 THEN stmtLine + 1 ELSE stmtLine
   IN [lines |-> head \o st \o Close(e) \o <<"end">>, fault |-> faultLine, stmt |-> stmtLine,
-      class |-> f[1], always |-> f[2], encl |-> e, split |-> split]
+      class |-> f[1], always |-> f[2], encl |-> e, split |-> split, echo |-> echo]
 
 \* a fault inside a condition: the condition on the statement's line or on the next one
-CondLayout(lead, pre, fill, kind, c, split) ==
-  LET head == Lead(lead) \o Pre(pre) \o <<"rule \"faulty\" \"d\"", "begin">> \o Filler(fill)
+CondLayout(lead, pre, fill, kind, c, split, echo) ==
+  LET head == Lead(lead) \o Pre(pre) \o <<"rule \"faulty\" \"d\"", "begin">> \o Filler(fill) \o Echo(echo, "if " \o c[3] \o " { }")
       kw == CASE kind = "if" -> <<"  if">> [] kind = "elseif" -> <<"  if false {", "  } else if">>
               [] kind = "for" -> <<"  for i = 0;">>
       tailtxt == IF kind = "for" THEN c[3] \o "; i += 1 {" ELSE c[3] \o " {"
@@ -91,12 +96,13 @@ CondLayout(lead, pre, fill, kind, c, split) ==
               ELSE SubSeq(kw, 1, Len(kw) - 1) \o <<kw[Len(kw)] \o " " \o tailtxt>>
   IN [lines |-> head \o body \o <<"    y = 3", "  }", "end">>,
       fault |-> IF split THEN stmtLine + 1 ELSE stmtLine, stmt |-> stmtLine,
-      class |-> c[1], always |-> c[2], encl |-> "cond-" \o kind, split |-> split]
+      class |-> c[1], always |-> c[2], encl |-> "cond-" \o kind, split |-> split, echo |-> echo]
 
 CONSTANTS GLead, GPre, GFill
 Cases ==
-  {Layout(l, p, fl, e, f, sp) : l \in GLead, p \in GPre, fl \in GFill, e \in Encl, f \in Faults, sp \in BOOLEAN}
-  \cup {CondLayout(l, p, fl, k, c, sp) : l \in GLead, p \in GPre, fl \in GFill, k \in {"if", "elseif", "for"}, c \in CondFaults, sp \in BOOLEAN}
+  {Layout(l, p, fl, e, f, sp, ec) : l \in GLead, p \in GPre, fl \in GFill, e \in Encl, f \in Faults, sp \in BOOLEAN, ec \in BOOLEAN}
+  \cup {CondLayout(l, p, fl, k, c, sp, ec) : l \in GLead, p \in GPre, fl \in GFill, k \in {"if", "elseif", "for"}, c \in CondFaults,
+                                            sp \in BOOLEAN, ec \in BOOLEAN}
 
 \* sanity of the layout arithmetic, checked on every case: the fault line holds the fault text
 LayoutSane == \A c \in Cases : c.fault \in DOMAIN c.lines /\ c.stmt <= c.fault /\ c.fault <= c.stmt + 1
